@@ -1154,7 +1154,7 @@ def directed(ck, bad, suspects):
 
 
 def run(ck):
-    ck.trusted += ['translators tools/gen_elements.py, gen_stereo.py (regenerated here) and gen_smiles_tables.py (regenerated by C02's check; no C01 theorem depends on table contents)',
+    ck.trusted += ['translators tools/gen_elements.py, gen_stereo.py (regenerated here) and gen_smiles_tables.py (regenerated by the C02 check; no C01 theorem depends on table contents)',
                    'correspondence runner harness/checks/C01.py + harness/coqcases.py + harness/coqmol.py (prints live molecules as Coq terms)',
                    'CachedMethods shim harness/boot.py', 'CPython 3.12.1', 'Coq primitive 63-bit integers under vm_compute (model/MorganFast.v)',
                    'RDKit 2026.3 and the own colour-refinement oracle (search only)']
